@@ -5,6 +5,7 @@ import (
 	"go/token"
 	"go/types"
 	"log"
+	"strconv"
 	"strings"
 
 	"github.com/goghcrow/go-ast-matcher"
@@ -12,6 +13,7 @@ import (
 	"github.com/goghcrow/go-loader"
 	"github.com/goghcrow/go-matcher"
 	. "github.com/goghcrow/go-matcher/combinator"
+	"golang.org/x/tools/go/ast/astutil"
 )
 
 type optimizer struct {
@@ -50,7 +52,28 @@ func (o *optimizer) optimizeAllFiles(printer FilePrinter) {
 }
 
 func (o *optimizer) optimizeImports(f *loader.File) {
+	// side effect imports (_ "embed", drivers ...) are never used by name, but still needed
+	var blanks []string
+	for _, spec := range f.File.Imports {
+		if spec.Name != nil && spec.Name.Name == "_" {
+			if path, err := strconv.Unquote(spec.Path.Value); err == nil {
+				blanks = append(blanks, path)
+			}
+		}
+	}
 	imports.Clean(o.m.Loader, f)
+	// Clean drops them from the decls only, File.Imports (consulted by AddNamedImport) would go stale,
+	// a file may be visited twice (package and its test variant)
+	kept := f.File.Imports[:0]
+	for _, spec := range f.File.Imports {
+		if spec.Name == nil || spec.Name.Name != "_" {
+			kept = append(kept, spec)
+		}
+	}
+	f.File.Imports = kept
+	for _, path := range blanks {
+		astutil.AddNamedImport(f.Pkg.Fset, f.File, "_", path)
+	}
 }
 
 // NOTICE:
